@@ -380,16 +380,16 @@ def rule_reshape(ctx):
     else:
         ctx.holds('R4', 'reshape order: unflatten -> squeeze -> transpose -> newaxis -> flatten')
     ok = True
+    problems = []
     for e in p.calls('squeeze'):
         a = e.a[2]
         if not (len(a) == 1 and a[0][0] == 'elem' and 'dims' in T.show(a[0][1])):
-            ctx.violated('R4', fi, e.node, 'only the singleton dimension that is not requested may be squeezed: o.squeeze(dim) (squeeze() drops every singleton, '
-                         'including those the caller keeps, whose labels are then lost)', node=e.node)
+            problems.append('squeeze argument')
             ok = False
         else:
             g = [pol for x, pol in e.guards if x[0] == 'cmp' and x[1] == 'in' and x[2] == a[0]]
             if g != [False]:
-                ctx.violated('R4', fi, e.node, 'a dimension is squeezed only if it is not among the requested ones', node=e.node)
+                problems.append('squeeze guard')
                 ok = False
     # (path-sensitive: every way of reaching the squeeze call, not only the merged state)
     try:
@@ -404,15 +404,14 @@ def rule_reshape(ctx):
         for g, e in sq.items():
             if g != (False,):
                 extra = [T.show(x)[:50] for x, pol in e.guards if not (x[0] == 'cmp' and x[1] == 'in')][-2:]
-                ctx.violated('R4', fi, 'squeeze of a requested dimension', 'reshape squeezes a dimension on a path where it *is* among the requested ones (extra condition: %s): a wanted '
-                             'size-1 dimension is dropped and re-inserted as a dummy [None] axis, losing its label' % '; '.join(extra), node=e.node)
+                problems.append('squeeze guard on some path')
                 ok = False
     except AnalysisError as ex:
         ctx.undecide('R4', 'reshape (fork mode): %s' % ex)
     for e in p.calls('newaxis'):
         a = e.a
         if not (len(a[2]) == 1 and a[2][0][0] == 'elem' and T.kw(a, 'pos') == ('idx', a[2][0][1], a[2][0][2])):
-            ctx.violated('R4', fi, e.node, 'a missing dimension is inserted as singleton at its index in the requested list: o.newaxis(dim, pos=i)', node=e.node)
+            problems.append('newaxis position')
             ok = False
     for e in p.calls('flatten'):
         a = e.a
@@ -421,9 +420,14 @@ def rule_reshape(ctx):
             el = None
         if not (el is not None and a[2][0] == ('call', ('attr', el, 'split'), (const(','),), ()) and T.kw(a, 'insert') == ('idx', el[1], el[2])):
             # members and position come from somewhere else (recorded in an earlier pass, ...): where each group lands is read off the interpreted scenarios of reshape
-            from ..scenario_rule import rule_scenarios
-            rule_scenarios(ctx, 'R4', only=RS + 'reshape', title="reshape pipeline: a comma-joined name groups its members at its own index (interpreted scenarios)")
+            problems.append('grouping step')
+            ok = False
             break
+    if problems:
+        # the steps are written in a form the structural clauses do not read (%s): which dimensions are dropped, inserted where, and grouped where is read off the
+        # interpreted scenarios of reshape (permutations, new and dropped dimensions, kept and dropped singleton dimensions, one and several groups, transpose=False)
+        from ..scenario_rule import rule_scenarios
+        rule_scenarios(ctx, 'R4', only=RS + 'reshape', title='reshape pipeline: squeeze / newaxis / flatten per dimension (interpreted scenarios; structural reading gave up on: %s)' % ', '.join(sorted(set(problems))))
     if ok:
         ctx.holds('R4', 'reshape: squeeze(dim) / newaxis(dim, pos=i) / flatten(group, insert=i) per dimension')
     # renames only on private copies
